@@ -264,6 +264,10 @@ VARIANTS = {
         silent('rename-local-children', EM, 'Uniform.mutate', 'new_child_value', 'ncv', count=0),
     ],
     'C15': [
+        fire('sweeping-asks-cursor', 'pyglove/core/geno/sweeping.py', 'Sweeping._propose', 'self.dna_spec.next_dna(self._last_proposed_dna)', 'self._last_proposed_dna.next_dna() if self._last_proposed_dna is not None else self.dna_spec.first_dna()', 'C15.e', '_last_proposed_dna-unbound'),
+        fire('recover-threshold-minus-one', EB, 'Evolution.recover', 'len(init_population) >= self._init_population_size', 'len(init_population) >= self._init_population_size - 1', 'C15.e', 'threshold'),
+        fire('feedback-threshold-no-offset', EB, 'Evolution._feedback', 'self.num_feedbacks >= self._init_population_size - 1', 'self.num_feedbacks >= self._init_population_size', 'C15.e', 'threshold'),
+        fire('recover-no-population-update', EB, 'Evolution.recover', 'if self._population_update:', 'if False:', 'C15.e', 'update-per-individual'),
         fire('dedup-replays-inner', GD, 'Deduping.recover', 'self.generator.recover(history)',
              'for i, (d, r) in enumerate(history):\n        self.generator._replay(i, d, r)', 'C15.a', 'Deduping'),
         fire('replay-skips-cache', GD, 'Deduping._replay', 'self._add_dna_to_cache(dna, reward)', 'pass', 'C15.b', 'Deduping._replay#cache'),
@@ -273,6 +277,7 @@ VARIANTS = {
         silent('rename-local-init_population', EB, 'Evolution.recover', 'generation_id', 'gen_id', count=0),
     ],
     'C16': [
+        fire('sample-eager-backend', 'pyglove/core/tuning/sample.py', 'sample', 'yield (value, feedback)', 'return iter([(value, feedback)])', 'C16.f', 'sample'),
         fire('group-truthiness', 'pyglove/core/tuning/local_backend.py', '_InMemoryBackend.__init__', 'if group is None:', 'if not group:', 'C16.e', '_InMemoryBackend.__init__'),
         fire('write-outside-lock', LB, '_InMemoryResult._complete_trial', "with self._lock:\n        self._num_trials_by_status['COMPLETED'] += 1",
              "self._num_trials_by_status['COMPLETED'] += 1\n    with self._lock:\n        pass", 'C16.a', "_complete_trial#_num_trials_by_status"),
@@ -289,6 +294,7 @@ VARIANTS = {
                more=[('best is None', 'cur is None'), ('best.final_measurement', 'cur.final_measurement')]),
     ],
     'C17': [
+        fire('view-options-merge-into-shallow-copy', 'pyglove/core/views/base.py', 'view_options', 'options = utils.merge([parent_options, kwargs])', 'options = utils.merge_tree(dict(parent_options), kwargs)', 'C17.g', 'view_options'),
         fire('permission-restore-missing', PE, 'permission', 'if outter_perm is None:\n            utils.thread_local_del(_TLS_CODE_RUN_PERMISSION)', 'pass', 'C17.a', 'permission'),
         fire('exit-fn-before-restore', 'pyglove/core/hyper/dynamic_evaluation.py', 'dynamic_evaluate', 'base.set_dynamic_evaluate_fn(old_evaluate_fn, per_thread)\n        if not has_errors and exit_fn is not None:\n            exit_fn()', 'if not has_errors and exit_fn is not None:\n            exit_fn()\n        base.set_dynamic_evaluate_fn(old_evaluate_fn, per_thread)', 'C17.h', 'dynamic_evaluate'),
         fire('propagate-plain-values', 'pyglove/core/utils/contextual.py', 'with_contextual_override', 'with contextual_override() as current_context:\n        pass', 'current_context = all_contextual_values()', 'C17.i', 'with_contextual_override'),
@@ -304,6 +310,9 @@ VARIANTS = {
         silent('rename-key-constant-usage', TL, 'thread_local_value_scope', 'previous_value', 'prev', count=0),
     ],
     'C18': [
+        fire('delattr-bookkeeping-first', FU, 'Functor.__delattr__', 'del self._sym_attributes[name]', 'self._specified_args.discard(name)\n    del self._sym_attributes[name]', 'C18.k', '__delattr__'),
+        fire('functor-raw-arg-read', FU, 'Functor._parse_call_time_overrides', 'k: self.sym_inferred(k) for k in self._sym_attributes.keys()', 'k: v for k, v in self._sym_attributes.items()', 'C18.j', '_parse_call_time_overrides'),
+        fire('call-init-raw-args', 'pyglove/core/symbolic/class_wrapper.py', '_SubclassedWrapperBase._call_init', 'dict(self.sym_init_args)', 'dict(self.sym_init_args.sym_items())', 'C18.j', '_call_init'),
         fire('specified-by-default-equality', 'pyglove/core/symbolic/functor.py', 'Functor._on_change', 'if update.new_value == pg_typing.MISSING_VALUE:', 'if update.new_value == pg_typing.MISSING_VALUE or update.field.default_value == update.new_value:', 'C18.h', 'Functor._on_change'),
         fire('duplicate-check-truthiness', 'pyglove/core/symbolic/object.py', 'Object.__init__', 'if k in field_args:', 'if k in field_args and field_args[k]:', 'C18.i', 'Object.__init__'),
         fire('reset-early-return', 'pyglove/core/symbolic/class_wrapper.py', '_SubclassedWrapperBase._on_reset', 'self.__dict__.clear()', 'if not self.wrapped_cls_initialized:\n        return\n    self.__dict__.clear()', 'C18.i', '_on_reset'),
@@ -328,6 +337,8 @@ VARIANTS = {
         silent('rename-local-code_block', EX, 'evaluate', 'last_expr', 'tail_expr', count=0),
     ],
     'C20': [
+        fire('escape-unescape-first', 'pyglove/core/views/html/base.py', 'Html.escape', 'html_lib.escape(s)', 'html_lib.escape(html_lib.unescape(s))', 'C20.d', 'argument'),
+        fire('escape-keeps-quotes', 'pyglove/core/views/html/base.py', 'Html.escape', 'html_lib.escape(s)', 'html_lib.escape(s, quote=False)', 'C20.d', 'argument'),
         fire('escape-memoised', 'pyglove/core/views/html/base.py', 'Html.escape', 'if isinstance(s, str):\n        return _escape(s)', 'if isinstance(s, str):\n        if s not in _CACHE:\n            _CACHE[s] = _escape(s)\n        return _CACHE[s]', 'C20.e', 'Html.escape'),
         fire('unescaped-key', TV, 'HtmlTreeView.object_key', 'Html.escape(str(root_path.key))', 'str(root_path.key)', 'C20.a', 'object_key'),
         fire('tooltip-raw-content', TV, 'HtmlTreeView.summary', 'summary_tooltip_fn(value, parent=parent', 'summary_tooltip_fn(value, content=str(value), parent=parent', 'C20.a', 'summary'),
